@@ -208,6 +208,7 @@ func (c *LRUCache) Set(key string, value interface{}, ttl time.Duration) error {
 		c.currentSize -= oldEntry.Size
 		c.currentSize += size
 		elem.Value = entry
+		c.evictUntilWithinMaxSize()
 		atomic.AddUint64(&c.stats.Sets, 1)
 		return nil
 	}
@@ -263,6 +264,7 @@ func (c *LRUCache) SetWithTags(key string, value interface{}, ttl time.Duration,
 		c.currentSize -= oldEntry.Size
 		c.currentSize += size
 		elem.Value = entry
+		c.evictUntilWithinMaxSize()
 		return nil
 	}
 
@@ -360,6 +362,15 @@ var ErrEntryTooLarge = fmt.Errorf("cache: entry does not fit within the configur
 // entry of the given size.
 func (c *LRUCache) canEverFit(size int64) bool {
 	return c.capacity > 0 && (c.maxSize <= 0 || size <= c.maxSize)
+}
+
+// evictUntilWithinMaxSize evicts least recently used entries while the byte
+// budget is exceeded. It is called after an in-place update, which has just
+// moved the updated entry to the front, so that entry is evicted last.
+func (c *LRUCache) evictUntilWithinMaxSize() {
+	for c.maxSize > 0 && c.currentSize > c.maxSize && c.evictList.Len() > 1 {
+		c.evictOldest()
+	}
 }
 
 // evictOldest removes the least recently used entry
